@@ -91,10 +91,11 @@ def native_check(quick=True):
             n += 2
             if len(a) != len(b) or any(not torch.equal(x, y) for x, y in zip(a, b)):
                 fails.append("%s: two runs seeded with %d differ (numpy/random perturbed in between)" % (kind, seed))
-            c = history(kind, seed + 1, 1)
-            n += 1
-            if torch.equal(a[0], c[0]) and torch.equal(a[-1], c[-1]):
-                fails.append("%s: a different seed gave identical draws" % kind)
+            for other in (seed + 1, -seed, seed + 2 ** 20):
+                c = history(kind, other, 1)
+                n += 1
+                if torch.equal(a[0], c[0]) and torch.equal(a[-1], c[-1]):
+                    fails.append("%s: the different seeds %d and %d gave identical draws" % (kind, seed, other))
         ch = readonly(kind, 3)
         n += 1
         if ch:
